@@ -188,7 +188,12 @@ class HdrGen:
         hl += self._extras(as_bytes, max_frame=max_frame)
         if body_len is not None:
             hl.append(('content-length', str(body_len)))
-        return self._finish(hl, as_bytes)
+        out = self._finish(hl, as_bytes)
+        if self.variety and hostmode in ('host', 'both') and rng.random() < self.variety * 0.08:
+            # a list that mixes str and bytes: the same field once more in the other type, with another value
+            other = auth if hostmode == 'both' else rng.choice(AUTHS + [auth])    # (with :authority present they must agree)
+            out.append(('host', other) if as_bytes else (b'host', other.encode()))
+        return out
 
     def response(self, info=False, max_frame=16384, status=None, body_len=None):
         rng = self.rng
@@ -316,7 +321,7 @@ class Gen:
         # per-run op weights (swarm: some kinds disabled altogether)
         ops = {'open': 3, 'respond': 3, 'info': 1, 'data': 5, 'end': 2, 'trailers': 1, 'reset': 1,
                'ping': 1, 'ack': 4, 'settings': 0, 'push': 0, 'prio': 1, 'winc': 1, 'altsvc': 1,
-               'gc': 1, 'query': 2, 'goaway': 0, 'race': 0}
+               'gc': 1, 'query': 2, 'goaway': 0, 'race': 0, 'rsv': 0}
         for k in list(ops):
             if rng.random() < 0.2 and k not in ('open', 'respond'):
                 ops[k] = 0
@@ -324,6 +329,7 @@ class Gen:
             ops['settings'] = P['settings_churn'] * 25
         if rng.random() < 0.6:
             ops['push'] = P['push'] * 25
+            ops['rsv'] = P['push'] * 25 * P.get('rsv', 0.5)
         if rng.random() < 0.5:
             ops['goaway'] = P['goaway'] * 10
         self.no_winc = bool(P.get('no_manual_winc'))
@@ -376,6 +382,8 @@ class Gen:
         self.branch_steps = 0
         self.branch_faults = {}
         self.branch_cb = None          # self-test hook: called with every finished branch
+        self.refused = {'c': [], 's': []}      # last refused calls per endpoint: (op, args)
+        self.hot_ids = {'c': [], 's': []}      # stream ids named in them (the adversary likes to poke at those)
         self.nohead = set()        # (ep, sid): messages that must not carry a body
         self.lie_streams = set()   # (ep, sid): the application deliberately breaks content-length / no-content rules (C16)
 
@@ -404,8 +412,17 @@ class Gen:
         if s.kind == 'call' and s.op == 'update_settings' and s.ok and C.S_HEADER_TABLE_SIZE in s.args['settings']:
             self.table_state[s.ep] = 'wait_ack'
 
+    AFTERMATH_OPS = ('send_headers', 'push_stream', 'send_data', 'end_stream', 'update_settings')
+
     def call(self, ep, op, **a):
         s = self.ex({'ev': 'call', 'ep': ep, 'op': op, 'a': a})
+        if s is not None and not s.ok and op in self.AFTERMATH_OPS and not s.snap['closed']:
+            self.refused[ep].append((op, a))
+            del self.refused[ep][:-3]
+            for k in ('sid', 'promised'):
+                if isinstance(a.get(k), int) and 0 < a[k] <= MAXID:
+                    self.hot_ids[ep].append(a[k])
+            del self.hot_ids[ep][:-4]
         if self.eager and not self.halted:
             self.ex({'ev': 'flush', 'ep': ep, 'n': None})
         return s
@@ -509,7 +526,9 @@ class Gen:
                     return
                 if ep == self.silent:
                     return
-                if rng.random() < self.misuse:
+                if self.refused[ep] and rng.random() < P.get('aftermath', 0.15):
+                    self._aftermath(ep)
+                elif rng.random() < self.misuse:
                     self._misuse(ep)
                 else:
                     self._valid(ep)
@@ -725,6 +744,9 @@ class Gen:
             overhead = 0
         room -= overhead
         if room < 0:
+            if rng.random() < 0.5:
+                # (a window driven negative by a smaller INITIAL_WINDOW_SIZE: even an empty frame is refused)
+                self.call(ep, 'send_data', sid=st.sid, data=b'', es=rng.random() < 0.5, pad=None)
             return
         size = rng.choice([0, 1, room, room, max(room - 1, 0), min(room, 10), min(room, 1000),
                            min(room, self.payload_scale)])
@@ -773,7 +795,10 @@ class Gen:
             return
         st = rng.choice(cands)
         hs = self.hg[ep].trailers(self._max_frame(trk))
-        self.call(ep, 'send_headers', sid=st.sid, headers=hs, es=True)
+        kw = {}
+        if e.client and rng.random() < self.P.get('prio_open', 0.15) * 0.5:
+            kw = rng.choice([{'pw': 7}, {'pw': 256, 'pd': 1, 'pe': True}, {'pd': 0}, {'pe': False}])
+        self.call(ep, 'send_headers', sid=st.sid, headers=hs, es=True, **kw)
 
     def _op_reset(self, ep, e, trk, live):
         rng = self.rng
@@ -840,8 +865,8 @@ class Gen:
         if trk.acks_received == 0 and 'F-ACK-INITIAL' in self.avoid:
             return      # an update before the initial SETTINGS is acknowledged: known finding
         d = self._settings_dict(ep)
-        if d:
-            self.call(ep, 'update_settings', settings=d)
+        if d or self.rng.random() < 0.25:
+            self.call(ep, 'update_settings', settings=d)       # (sometimes an empty SETTINGS frame: legal, acknowledged like any)
 
     def _op_push(self, ep, e, trk, live):
         rng = self.rng
@@ -863,6 +888,54 @@ class Gen:
             return
         hs = self.hg[ep].request(self._max_frame(trk), method=rng.choice(['GET', 'HEAD']))
         self.call(ep, 'push_stream', sid=st.sid, promised=promised, headers=hs)
+
+    def _op_rsv(self, ep, e, trk, live):
+        """Settings that change while a promised stream is still reserved: the client moves INITIAL_WINDOW_SIZE or
+        MAX_FRAME_SIZE, the server then uses the pushed stream up to the new limits."""
+        rng = self.rng
+        if e.client:
+            if not any(st.state == 'rsvR' for st in live):
+                return
+            if trk.acks_received == 0 and 'F-ACK-INITIAL' in self.avoid:
+                return
+            if rng.random() < 0.5:
+                vals = [0, 3, 100, 1024, 65535, 100000, 2 ** 20]
+                if self.P['windows'] == 'small':
+                    vals = [0, 3, 100, 1024, 65535]
+                d = {C.S_INITIAL_WINDOW_SIZE: rng.choice(vals)}
+            else:
+                d = {C.S_MAX_FRAME_SIZE: rng.choice([16384, 16385, 32768, 65536])}
+            self.call(ep, 'update_settings', settings=d)
+            return
+        rsv = [st for st in live if st.state == 'rsvL' and st.sent in (NONE, INFO)]
+        if not rsv:
+            return self._op_push(ep, e, trk, live)
+        st = rng.choice(rsv)
+        lim = trk.peer.get(C.S_MAX_CONCURRENT_STREAMS)
+        if lim is not None and trk.count_open(True) >= lim:
+            return
+        if self._no_body(trk, st):
+            return self._op_respond(ep, e, trk, live)
+        mf = self._max_frame(trk)
+        hs = self.hg[ep].response(max_frame=mf, status='200')
+        if rng.random() < 0.4:
+            size = rng.choice([mf - 50, mf + 1, 16385, 20000, 33000])
+            lim_ = trk.peer.get(C.S_MAX_HEADER_LIST_SIZE)
+            cur = sum(len(h[0]) + len(h[1]) + 32 for h in hs)
+            if (lim_ is None or size + cur + 200 < lim_) and size + cur + 200 < 60000:
+                as_bytes = bool(hs) and isinstance(hs[0][0], bytes)
+                v = ''.join(rng.choice('abcdefghijklmnopqrstuvwxyz0123456789') for _ in range(48)) * (size // 48 + 1)
+                hs = list(hs) + [(b'x-big', v[:size].encode()) if as_bytes else ('x-big', v[:size])]
+        s_ = self.call(ep, 'send_headers', sid=st.sid, headers=hs, es=False)
+        if s_ is None or not s_.ok or self.halted:
+            return
+        st2 = trk.get(st.sid)
+        if st2 is None:
+            return
+        room = min(trk.conn_send, st2.send_win, self._max_frame(trk))
+        if room > 0:
+            n = rng.choice([room, room, max(room - 1, 0), min(room, 100)])
+            self.call(ep, 'send_data', sid=st.sid, data=b'p' * n, es=rng.random() < 0.3, pad=None)
 
     def _op_prio(self, ep, e, trk, live):
         rng = self.rng
@@ -1240,6 +1313,78 @@ class Gen:
         else:
             self.call(ep, rng.choice(['open_outbound_streams', 'open_inbound_streams']))
 
+    def _aftermath(self, ep):
+        """What an application does after one of its calls was refused: it retries properly, carries on as if
+        nothing had happened, or carries on as if the call had worked.  A refused call must have changed nothing,
+        so on an intact library all of these behave exactly as they would have without the refused call."""
+        rng = self.rng
+        w = self.w
+        e = w.eps[ep]
+        trk = e.trk
+        hg = self.hg[ep]
+        op, a = self.refused[ep].pop(rng.randrange(len(self.refused[ep])))
+        if trk.closed or self.halted:
+            return
+        mf = self._max_frame(trk)
+        sid = a.get('sid')
+        st = trk.get(sid) if isinstance(sid, int) else None
+        live = [x for x in trk.streams.values() if x.state != 'closed']
+        k = rng.randrange(6)
+        if op == 'send_headers' and isinstance(sid, int) and 0 < sid <= MAXID:
+            if k == 0:
+                # the proper retry
+                if st is None and e.client:
+                    self._op_open(ep, e, trk, live)
+                elif st is not None and not st.mine and st.state in ('open', 'hcR') and st.sent in (NONE, INFO) \
+                        and not self._no_body(trk, st):
+                    self.call(ep, 'send_headers', sid=sid, headers=hg.response(max_frame=mf, status='200'), es=False)
+            elif k == 1:
+                # as if the block had gone out: what would follow it (all refused by header validation or by the stream
+                # lookup on an intact library - no state machine is asked)
+                if w.cfg[ep].get('validate_outbound', True) and \
+                        (st is None or (st.sent in (NONE, INFO) and st.state in ('open', 'hcR') and not st.mine)):
+                    self.call(ep, 'send_headers', sid=sid, headers=hg.trailers(mf), es=True)
+            elif k == 2:
+                self.call(ep, 'get_next_available_stream_id')
+                self.call(ep, 'open_outbound_streams')
+            elif k == 3 and st is None:
+                self.call(ep, 'local_flow_control_window', sid=sid)
+            elif k == 4 and not e.client and self.fsm_misuse:
+                self.call(ep, 'advertise_alternative_service', field=b'h2=":443"', sid=sid)
+            elif k == 5 and e.client:
+                self._op_open(ep, e, trk, live)      # the next request (does the refused one still count as open?)
+        elif op == 'push_stream':
+            pr = a.get('promised')
+            if k == 0:
+                self._op_push(ep, e, trk, live)
+            elif k == 1 and isinstance(pr, int) and 0 < pr <= MAXID:
+                pst = trk.get(pr)
+                if pst is None or (pst.mine and pst.state == 'rsvL'):
+                    # the promised id: nothing there on an intact library unless it was reserved before
+                    self.call(ep, 'send_headers', sid=pr, headers=hg.response(max_frame=mf, status='200'), es=rng.random() < 0.5)
+            elif k == 2:
+                self.call(ep, 'get_next_available_stream_id')
+            elif k == 3 and st is not None and not st.mine and st.state in ('open', 'hcR') and st.sent in (NONE, INFO) \
+                    and not self._no_body(trk, st):
+                self.call(ep, 'send_headers', sid=sid, headers=hg.response(max_frame=mf, status='200'), es=False)
+            elif k == 4 and isinstance(pr, int) and 0 < pr <= MAXID:
+                self.call(ep, 'local_flow_control_window', sid=pr)
+        elif op in ('send_data', 'end_stream'):
+            if k in (0, 1) and e.client:
+                self._op_open(ep, e, trk, live)
+            elif k == 2:
+                self.call(ep, 'open_outbound_streams')
+                self.call(ep, 'open_inbound_streams')
+            elif k == 3:
+                self._op_data(ep, e, trk, live)
+            elif k == 4 and isinstance(sid, int) and st is not None:
+                self.call(ep, 'local_flow_control_window', sid=sid)
+        elif op == 'update_settings':
+            if k < 3:
+                self.call(ep, 'local_settings')
+            else:
+                self._op_settings(ep, e, trk, live)
+
     def _poke_leftover(self, ep, sid):
         """After a refused call that named a fresh stream id: calls that would trip over anything the refused call
         left behind (a ghost stream, a burnt id).  All of them are plain refusals on an intact library."""
@@ -1389,6 +1534,19 @@ class Gen:
         s = self.call('c', 'initiate_upgrade_connection')
         hdr = s.ret if s is not None and s.ok else None
         import base64
+        if rng.random() < self.P.get('upgrade_bad_header', 0.0):
+            # an HTTP2-Settings header written by something else than this library: boundary and out-of-range values
+            keys = rng.sample([1, 2, 3, 4, 5, 6, 8, 9, 0x7fff], rng.choice([1, 1, 2, 3]))
+            pairs = []
+            for k in keys:
+                pool = list(BAD_SETTING_VALUES.get(k, [])) * 2 + list(SETTING_VALUES.get(k, [0, 1, 2 ** 32 - 1]))
+                pool += {C.S_INITIAL_WINDOW_SIZE: [2 ** 31 - 1], C.S_MAX_FRAME_SIZE: [2 ** 24 - 1, 16384]}.get(k, [])
+                pairs.append((k, rng.choice(pool)))
+            raw = b''.join(k.to_bytes(2, 'big') + v.to_bytes(4, 'big') for k, v in pairs)
+            hdr2 = base64.urlsafe_b64encode(raw).rstrip(b'=')
+            self.call('s', 'initiate_upgrade_connection', settings_header=hdr2, _pairs=pairs)
+            self.upgrade_view_only = True
+            return
         pairs = []
         if hdr:
             raw = base64.urlsafe_b64decode(hdr)
